@@ -50,6 +50,8 @@ pub enum TraceEvent {
         metadata_converged: bool,
         /// the flattened input edges equal those of the head's previous provisional memo
         deps_stable: bool,
+        /// the cycle heads this head's result depends on in this iteration (itself included)
+        heads: Vec<(u32, u64)>,
     },
 }
 
